@@ -1,4 +1,6 @@
 """C16 — middleware wraps requests in order; redirects are bounded and exact (structural clauses)."""
+import re
+
 from rules.facts import norm, path_matches, origins, flows_to, call_matches, last_seg
 
 CONFIGS = {'quick': ['default', 'controls'], 'thorough': ['allfeat']}
@@ -9,7 +11,7 @@ EXPLANATION = (
     'split_first to the current middleware and calls the endpoint only when the chain is empty; R16.c every call that emits an '
     'HTTP effect is the EffectSender impl itself or lies inside the endpoint closure given to Next::new; R16.d the probing loop '
     'of Redirect::handle increments a counter on every cycle and leaves when it reaches self.attempts, probes are clones and the '
-    'final next.run receives the original request; R16.e the Client handed to middleware has an empty stack; R16.f every write '
+    'final next.run receives the original request; R16.h in Redirect::handle the only request mutator called is url_mut (method, body and headers of the original request are never touched); R16.e the Client handed to middleware has an empty stack; R16.f every write '
     'of the request URL in the redirect loop is preceded, in the same iteration, by an update of the base used for joining '
     'relative locations; R16.g the set of statuses followed as redirects, read from the table or match that guards the Location branch, is exactly '
     '301, 302, 303, 307, 308. Decides these shapes, not URL resolution inside the url crate.')
@@ -333,6 +335,21 @@ def check_redirect(rep, http):
         return
     f = bodies[0]
     check_redirect_statuses(rep, http, f)
+    # R16.h: following redirects changes WHERE the request goes and nothing else: in Redirect::handle (its body, closures and helpers) the
+    # only mutator of a request that is called is url_mut — no method, body, header, query or extension is set, taken or removed
+    from rules.props import c14 as _c14
+    rep.rule('R16.h', 'Redirect::handle changes a request only through url_mut: method, body and headers of the original request are sent on unchanged', floor=1)
+    fam = [f] + http.closures_of(f)
+    muts = []
+    for g in fam:
+        for bb, t in g.calls():
+            cn = norm(t.get('callee') or '')
+            if re.search(r'::request::Request::\w+$', cn) and last_seg(cn) in _c14.HT_MUTATORS | {'set_middleware', 'middleware', 'take_middleware'}:
+                muts.append((last_seg(cn), g.where(bb)))
+    other = [m for m in muts if m[0] != 'url_mut']
+    rep.expect('R16.h', any(m[0] == 'url_mut' for m in muts) and not other, 'only-the-url', 'the only request mutator called is url_mut (%d site(s))' % len(muts),
+               'Redirect::handle also changes the request through %s: the rest of the chain and the shell no longer get the original '
+               'request (method, headers, body) at the final URL' % other)
     probes = list(f.calls('crux_http::client::Client::send'))
     finals = list(f.calls('crux_http::middleware::Next::run'))
     if len(probes) != 1 or len(finals) != 1:
